@@ -1,4 +1,207 @@
-(* C13 - placeholder while the proofs are being written *)
-From Eupsv Require Import Base.Base Model.Graph.
-Theorem c13_placeholder : True. Proof. exact I. Qed.
-Print Assumptions c13_placeholder.
+(* C13 - Dependency listings are complete and ordered; uses is their inverse.
+   Property theorems only; proofs are short appeals to Proofs/Graph*.v.
+
+   Vocabulary (Model/Graph.v): a [node] is (name, version-or-None, found?); a [world] maps each
+   declared (name, version) to the resolved dependency lines of its table; [own_target e] is the
+   product a line denotes; [dependent_products fuel w top topological] is
+   Eups.getDependentProducts; [users idx x ov] is Uses.users on the index built by Eups.uses.
+   [step w p q]: some line of the table of p denotes q.  [reach_plus w p q]: one or more steps. *)
+From Eupsv Require Import Base.Base Model.Graph Proofs.GraphLib Proofs.GraphWalk Proofs.GraphListing
+     Proofs.GraphLayers Proofs.GraphTarjan Proofs.GraphPartition Proofs.GraphOrder.
+Open Scope string_scope.
+
+(* ------------------------------------------------------------------ completeness of the listing *)
+
+(* the listing holds exactly the products reachable through the table files, stubs included and
+   the top product excluded; cycles are allowed; any fuel above the number of declared products
+   suffices *)
+Theorem walk_complete w top fuel :
+  length w < fuel ->
+  exists l, dependent_products fuel w top false = Ok l /\
+            forall q, In q (map enode l) <-> q <> top /\ reach_plus w top q.
+Proof. exact (listing_plain w top fuel). Qed.
+Print Assumptions walk_complete.
+
+(* the same for the topological listing, which moreover names every product once *)
+Theorem walk_complete_topological w top fuel l :
+  length w < fuel ->
+  dependent_products fuel w top true = Ok l ->
+  (forall q, In q (map enode l) <-> q <> top /\ reach_plus w top q) /\ NoDup (map enode l).
+Proof. exact (listing_topological node_cmp w top fuel l). Qed.
+Print Assumptions walk_complete_topological.
+
+(* the recursive walk answers on every world, cyclic or not, pinned versions or not *)
+Theorem walk_terminates_on_cycles w pins top fuel :
+  length w < fuel -> exists out st, walk_top fuel w pins top = Ok (out, st).
+Proof.
+  intros H. destruct (walk_top_spec w pins top fuel H) as [out [st [E _]]]. eauto.
+Qed.
+Print Assumptions walk_terminates_on_cycles.
+
+(* ------------------------------------------------------------------ layers *)
+
+(* for ANY component list cs for which the layering completes, an edge of the graph either stays
+   inside one component or goes to a component that was yielded in a strictly earlier layer
+   ([lidx L c] = index of the first layer of L that holds c; see layer_index_meaning) *)
+Theorem layers_respect_edges check g cs L :
+  comp_layers check g cs = Ok L ->
+  forall n ss s, In (n, ss) g -> In s ss ->
+    exists cn c_s, comp_of cs n = Some cn /\ comp_of cs s = Some c_s /\
+                   (cn = c_s \/ lidx L c_s < lidx L cn).
+Proof. exact (comp_layers_order check g cs L). Qed.
+Print Assumptions layers_respect_edges.
+
+Theorem layer_index_meaning check g cs L :
+  comp_layers check g cs = Ok L -> forall c, In c cs -> In c (nth (lidx L c) L []).
+Proof. exact (comp_layers_yields check g cs L). Qed.
+Print Assumptions layer_index_meaning.
+
+(* Tarjan's algorithm as written reports, on a graph without cycles, every node as a component
+   of its own - so that on such graphs every edge is ordered by the previous theorem *)
+Theorem dag_components_singleton g cs :
+  acyclic g -> closed_graph g -> scc g = Ok cs ->
+  (forall c, In c cs -> exists x, c = [x]) /\ (forall n, In n (gkeys g) -> In [n] cs).
+Proof. exact (scc_dag g cs). Qed.
+Print Assumptions dag_components_singleton.
+
+(* what topologicalSort receives is closed under successors and has no self edges *)
+Theorem prepared_graph_wellformed g :
+  closed_graph (prepare g) /\ (forall n ss, In (n, ss) (prepare g) -> ~ In n ss).
+Proof. split; [apply prepare_closed | apply prepare_no_self]. Qed.
+Print Assumptions prepared_graph_wellformed.
+
+(* ------------------------------------------------------------------ cycles are reported *)
+
+(* DESIGN statement: not acyclic g -> check_cycles g = Err.  Proved in the contrapositive form
+   (constructive, and independent of the correctness of Tarjan on cyclic graphs): whenever
+   topologicalSort(checkCycles=True) returns normally the graph has no cycle.  A cycle therefore
+   never passes: the call ends in RuntimeError ([Err Refused] from the component test or
+   [Err Crash] from the left-over test of the layering loop). *)
+Theorem cycle_reported g0 NL : check_cycles g0 = Ok NL -> acyclic (prepare g0).
+Proof. exact (check_cycles_passes_acyclic g0 NL). Qed.
+Print Assumptions cycle_reported.
+
+(* ------------------------------------------------------------------ uses *)
+
+(* Y is reported as a user of X [version ov, or any version] exactly when Y is declared and a
+   product named X [of that version] is in Y's topological listing - stubs and two versions included *)
+Theorem uses_inverse fuel w idx x ov us y :
+  uses_index fuel w = Ok idx -> users idx x ov = Ok us ->
+  (In y (map cuser us) <->
+   In y (map fst w) /\
+   exists l, dependent_products fuel w (pnode y) true = Ok l /\ exists q, In q (map enode l) /\ matches x ov q).
+Proof. exact (uses_inverse_listing fuel w idx x ov us y). Qed.
+Print Assumptions uses_inverse.
+
+(* ... that is, exactly when Y reaches such a product through the table files *)
+Theorem uses_inverse_reachability fuel w idx x ov us y :
+  length w < fuel ->
+  uses_index fuel w = Ok idx -> users idx x ov = Ok us ->
+  (In y (map cuser us) <->
+   In y (map fst w) /\ exists q, q <> pnode y /\ reach_plus w (pnode y) q /\ matches x ov q).
+Proof. exact (uses_inverse_reach fuel w idx x ov us y). Qed.
+Print Assumptions uses_inverse_reachability.
+
+(* every record returned repeats an entry of the user's listing (version needed, optional, depth) *)
+Theorem users_records_are_listing_entries idx x ov us c :
+  users idx x ov = Ok us -> In c us ->
+  exists l e, In (cuser c, l) idx /\ In e l /\ matches x ov (enode e) /\
+              cprops c = (nver (enode e), eoptional e, edepth e).
+Proof.
+  intros Hu Hc. destruct (users_total_ok idx x ov) as [us' [E [H _]]]. rewrite Hu in E. inversion E. subst us'.
+  apply H, consumers_props in Hc as [l [e [A [B [C D]]]]]. exists l, e.
+  repeat split; auto; apply key_matches_spec in C; apply C.
+Qed.
+Print Assumptions users_records_are_listing_entries.
+
+(* the query over the index never raises, whatever the index holds (the pinned code raised
+   TypeError here: users_pinned_refuted below) *)
+Theorem users_total idx x ov : exists us, users idx x ov = Ok us.
+Proof. destruct (users_total_ok idx x ov) as [us [E _]]. eauto. Qed.
+Print Assumptions users_total.
+
+(* ------------------------------------------------------------------ the partition checker *)
+
+(* Full correctness of Tarjan on cyclic graphs is not proved.  Instead the component list the model
+   computes is validated, for every graph the correspondence check meets, by this checker, which
+   is sound: what it accepts is the partition into strongly connected components.  (Testing.) *)
+Theorem partition_checker_sound g cs :
+  partition_ok g cs = true ->
+  NoDup (concat cs) /\
+  (forall n, In n (gkeys g) <-> In n (concat cs)) /\
+  (forall a b, In a (gkeys g) -> In b (gkeys g) ->
+     (same_comp cs a b <-> a = b \/ (gpath g a b /\ gpath g b a))).
+Proof. exact (partition_ok_sound g cs). Qed.
+Print Assumptions partition_checker_sound.
+
+(* ------------------------------------------------------------------ witnesses *)
+
+Definition ed (n : string) (v r : option string) (o : bool) : edge :=
+  mkEdge (lit n) (option_map lit v) (option_map lit r) o.
+Definition pr (n v : string) (es : list edge) : (str * str) * list edge := ((lit n, lit v), es).
+Definition nd (n v : string) : node := (lit n, Some (lit v), true).
+Definition stub (n : string) (v : option string) : node := (lit n, option_map lit v, false).
+
+(* a world with a cycle through the top product and a self dependency: the hypotheses of the
+   theorems above are inhabited by cyclic worlds, the listing is finite, the cycle check raises *)
+Definition w_cyclic : world :=
+  [ pr "a" "1" [ed "b" None (Some "1") false];
+    pr "b" "1" [ed "c" None (Some "1") false; ed "a" (Some "1") (Some "1") true];
+    pr "c" "1" [ed "c" None (Some "1") false] ].
+
+Example cyclic_world_listing :
+  dependent_products 4 w_cyclic (nd "a" "1") true
+  = Ok [ (nd "b" "1", false, 1); (nd "c" "1", false, 2) ]
+  /\ reach_plus w_cyclic (nd "a" "1") (nd "a" "1")
+  /\ (exists g, topo_graph 4 w_cyclic (nd "a" "1") = Ok g /\ check_cycles g = Err Refused).
+Proof.
+  split; [vm_compute; reflexivity|]. split.
+  - eapply rp_more; [exists [ed "b" None (Some "1") false], (ed "b" None (Some "1") false); repeat split; simpl; auto|].
+    apply rp_one. eexists _, (ed "a" (Some "1") (Some "1") true). split; [reflexivity|]. split; [right; left; reflexivity | reflexivity].
+  - eexists. split; vm_compute; reflexivity.
+Qed.
+
+(* D2 on the pinned tree: a 1 needs c 1 and c 2; pvsort compared two Props objects *)
+Definition w_two_versions : world :=
+  [ pr "a" "1" [ed "c" (Some "1") (Some "1") false; ed "c" (Some "2") (Some "2") true];
+    pr "c" "1" []; pr "c" "2" [] ].
+
+Example users_pinned_refuted :
+  exists idx, uses_index 5 w_two_versions = Ok idx /\
+              users_pinned idx (lit "c") None = Err Unsortable /\
+              users idx (lit "c") None =
+              Ok [ ((lit "a", lit "1"), (Some (lit "1"), false, 2)); ((lit "a", lit "1"), (Some (lit "2"), true, 2)) ].
+Proof. eexists. split; [vm_compute; reflexivity|]. split; vm_compute; reflexivity. Qed.
+
+(* D15 on the pinned tree: the undeclared product ghost is named bare in one table and with a
+   version in another; both stubs sit in the first layer and Product.__lt__ compared None with a str *)
+Definition w_two_stubs : world :=
+  [ pr "a" "1" [ed "ghost" None None true; ed "b" None (Some "1") false];
+    pr "b" "1" [ed "ghost" (Some "1") None true] ].
+
+Example layer_sort_pinned_refuted :
+  dependent_products_pinned 5 w_two_stubs (nd "a" "1") true = Err Unsortable /\
+  dependent_products 5 w_two_stubs (nd "a" "1") true
+  = Ok [ (nd "b" "1", false, 2); (stub "ghost" None, true, 3); (stub "ghost" (Some "1"), true, 3) ].
+Proof. split; vm_compute; reflexivity. Qed.
+
+(* D16 (open finding): depths are kept per product NAME and the second walk pins one version per
+   name.  p5 1 needs p3 3 (which needs p2 3) and p4 2 (which needs p3 1): p3 3 is listed with depth
+   3 and its dependency p2 3 with depth 2, i.e. BEFORE the product that needs it. *)
+Definition w_d16 : world :=
+  [ pr "p5" "1" [ed "p3" (Some "3") (Some "3") false; ed "p4" (Some "2") (Some "2") false];
+    pr "p3" "3" [ed "p2" (Some "3") (Some "3") false];
+    pr "p2" "3" [];
+    pr "p4" "2" [ed "p3" (Some "1") (Some "1") false];
+    pr "p3" "1" [] ].
+
+Example order_refuted_two_versions :
+  exists l dx dy,
+    dependent_products 7 w_d16 (nd "p5" "1") true = Ok l /\
+    step w_d16 (nd "p3" "3") (nd "p2" "3") /\
+    In (nd "p3" "3", false, dx) l /\ In (nd "p2" "3", false, dy) l /\ dy < dx.
+Proof.
+  eexists _, 3, 2. split; [vm_compute; reflexivity|]. split.
+  - exists [ed "p2" (Some "3") (Some "3") false], (ed "p2" (Some "3") (Some "3") false). repeat split. left. reflexivity.
+  - simpl. intuition.
+Qed.
